@@ -2,6 +2,7 @@
 GUARD (callback only when valid and due, with the scheduled time as argument; children descended only while due), RE-ASK (every invalidation is
 followed by a reschedule request; a pulsed node is invalidated), AGGREGATE (single writer, min of own and first child), SINGLE-WRITER of the list links."""
 import re
+from msa import guards as G
 from msa import pair as P
 from msa import ast as A
 from msa import cfg as C
@@ -45,21 +46,9 @@ def run(res, tier):
         for c in f.walk():
             if c['k'] == 'CXXMemberCallExpr' and c.get('q') == PN + '::Pulse' and c.get('virt'):
                 n_disp += 1
-                gs = [(f.nodes[x], t) for (x, t) in C.guards_of_block(f, P.pos_of(f, c)[0])]
+                gs = G.atoms_at(f, c)
                 valid = any(this_field(cn, '_myScheduledTimeValid') and t for (cn, t) in gs)
-                due = False
-                for (cn, t) in gs:
-                    n = A.strip_casts(cn)
-                    if n['k'] == 'BinaryOperator' and n.get('op') in ('>=', '<=', '>', '<'):
-                        l, r = n['ch']
-                        if n['op'] in ('>=',) and t and this_field(r, '_myScheduledTime') and A.strip_casts(l)['k'] == 'DeclRefExpr':
-                            due = True
-                        if n['op'] in ('<=',) and t and this_field(l, '_myScheduledTime') and A.strip_casts(r)['k'] == 'DeclRefExpr':
-                            due = True
-                        if n['op'] == '<' and not t and this_field(r, '_myScheduledTime'):
-                            due = True
-                        if n['op'] == '>' and not t and this_field(l, '_myScheduledTime'):
-                            due = True
+                due = any(op_ == '>=' and this_field(r_, '_myScheduledTime') and l_['k'] == 'DeclRefExpr' for (cn, t) in gs for (l_, op_, r_) in A.rel_forms(cn, t))
                 arg_ok = False
                 for x in c.args()[0].walk() if c.args() else []:
                     if x['k'] in ('CXXTemporaryObjectExpr', 'CXXConstructExpr') and (x.get('q') or '').startswith('muscle::PulseNode::PulseArgs') and len(x['ch']) >= 2:
@@ -75,13 +64,10 @@ def run(res, tier):
     okc = bool(rec)
     for c in rec:
         recv = A.strip_casts(c.receiver())
-        gs = [(f.nodes[x], t) for (x, t) in C.guards_of_block(f, P.pos_of(f, c)[0])]
         g = False
-        for (cn, t) in gs:
-            n = A.strip_casts(cn)
-            if n['k'] == 'BinaryOperator' and n.get('op') == '>=' and t:
-                r = A.strip_casts(n['ch'][1])
-                if r['k'] == 'MemberExpr' and r.get('n') == '_aggregatePulseTime' and r['ch'] and A.strip_casts(r['ch'][0]).get('d') == recv.get('d'):
+        for (cn, t) in G.atoms_at(f, c):
+            for (l_, op_, r) in A.rel_forms(cn, t):
+                if op_ == '>=' and r['k'] == 'MemberExpr' and r.get('n') == '_aggregatePulseTime' and r['ch'] and A.strip_casts(r['ch'][0]).get('d') == recv.get('d'):
                     g = True
         okc = okc and g
     res.ob('GUARD', f.where(), 'PulseAux descends into a child only while now >= child->_aggregatePulseTime', okc, function=f.q, key='GUARD|%s|child' % f.q,
